@@ -415,6 +415,7 @@ class Dataset(AbstractDataset, dict, OpMixin, GetSetDelAttrMixin):
         data.axes = self._getaxes_ortho(tuple_indices) 
         for nm in names:
             data[nm] = self[nm].take(indices={dim:dict_indices[dim] for dim in self[nm].dims}, indexing='position')
+            data[nm].attrs.update(self[nm].attrs) # variable's metadata (a variable indexed down to a scalar comes back bare)
         data.attrs.update(self.attrs) # dataset's metadata
         return data
 
